@@ -90,6 +90,25 @@ func c04Gen(rng *verifsim.RNG, idx int, tier string) *Plan {
 			rsAction(t0+2000, hostAddr(0)))
 		p.Actions[len(p.Actions)-1].If = iw.Name
 		p.Faults = append(p.Faults, Fault{Seam: "fwd", If: iw.Name, From: t0 + 1000, Count: rng.Range(1, 2), Err: []string{"fs.EIO", "fs.EPERM", "fs.ENOENT"}[rng.Intn(3)]})
+	} else if rng.Bool(0.12) {
+		// A scrape whose *other* sysctl read (autoconfiguration) fails: whatever
+		// the scrape then does (fail, or report what it could read), it must not
+		// present an interface that forwards as one that does not.
+		p.Class = "scrape-other-read-fails"
+		iw := n.Ifaces[rng.Intn(nif)]
+		t0 := int64(rng.Dur(4*time.Second, horizon)) + 555
+		var keep []Action
+		for _, x := range p.Actions {
+			if x.At >= t0-nsMs && x.At <= t0+nsMs && (x.Kind == "link" || x.Kind == "http") {
+				continue
+			}
+			keep = append(keep, x)
+		}
+		p.Actions = append(keep, Action{At: t0, Kind: "http", Path: "/metrics"})
+		p.Faults = append(p.Faults, Fault{Seam: "auto.get", If: iw.Name, From: t0 - 1, Count: 1, Err: []string{"fs.EPERM", "fs.EIO", "fs.ENOENT"}[rng.Intn(3)]})
+		if p.Horizon < t0+nsSec {
+			p.Horizon = t0 + nsSec
+		}
 	} else if rng.Bool(0.25) {
 		// Flip while a build is parked right after its forwarding read: the RA
 		// must carry the value that build read.
@@ -184,7 +203,7 @@ func c04Gen(rng *verifsim.RNG, idx int, tier string) *Plan {
 			}
 		} else {
 			t0 := int64(rng.Dur(2*time.Second, horizon)) + 777
-			p.Faults = append(p.Faults, Fault{Seam: "rtnl.addr", If: name, From: t0, Count: rng.Range(1, 2), Err: []string{"nl.EPERM", "nl.EINVAL", "opaque"}[rng.Intn(3)]})
+			p.Faults = append(p.Faults, Fault{Seam: "rtnl.addr", If: name, From: t0, Count: rng.Range(1, 2), Err: []string{"nl.EPERM", "nl.EINVAL", "opaque", "nl.ENODEV"}[rng.Intn(4)]})
 			p.Actions = append(p.Actions, Action{At: t0, Kind: "http", Path: []string{"/_/api/interfaces", "/metrics"}[rng.Intn(2)]})
 		}
 	} else if rng.Bool(0.3) {
@@ -435,6 +454,30 @@ func c04Oracle(info *runInfo, res *verifsim.Result) {
 			got := map[string]float64{}
 			for _, s := range parseProm(string(e.B)) {
 				got[s.key()] = s.value
+			}
+			if !overlap && e.V == 200 {
+				// a gauge answered without the read it mirrors (the read was skipped
+				// on some path) is held against what the system held meanwhile, if
+				// that did not change
+				for _, iw := range info.plan.Nodes[0].Ifaces {
+					if _, read := fwdRead[iw.Name]; read {
+						continue
+					}
+					if _, has := got[fmt.Sprintf("corerad_interface_forwarding{interface=%s}", iw.Name)]; !has {
+						continue
+					}
+					failed := false
+					for j := range info.ev {
+						x := &info.ev[j]
+						if x.Seq > enterSeq && x.Seq < e.Seq && x.K == "fwd.exit" && x.Err != "" && x.If == iw.Name {
+							failed = true
+						}
+					}
+					if a, b := worldFwdAt(info, 0, iw.Name, enterSeq), worldFwdAt(info, 0, iw.Name, e.Seq); a == b && !failed {
+						fwdRead[iw.Name] = a
+						res.Probe("forwarding_gauge_without_read")
+					}
+				}
 			}
 			for ifn, fwd := range fwdRead {
 				k := fmt.Sprintf("corerad_interface_forwarding{interface=%s}", ifn)
